@@ -13,6 +13,7 @@ while [ $k -lt $W ]; do
     for d in $(cat $OUT/all); do
       n=$((n+1)); [ $((n % W)) -eq $k ] || continue
       name=$(basename $d); pid=$(echo $name | cut -c1-3)
+      alt=$(jq -r '.regress_check // empty' /verif/$d/meta.json 2>/dev/null); [ -n "$alt" ] && pid=$alt    # a change filed under one property but breaking another
       git -C $wt apply /verif/$d/patch.diff || { echo "$name APPLY-FAILED"; continue; }
       PYCRAFT_REPO=$wt VERIF_SCRATCH_EVIDENCE=1 timeout 1500 ./check $pid --tier quick > $OUT/$name.log 2>&1; rc=$?
       git -C $wt checkout -- . ; git -C $wt clean -fdq
